@@ -5,7 +5,7 @@ CONSTANTS
   MaxSends = 4
   MaxTip = 4
   Mat = 2
-  Answers = {"accepted", "rejected", "notifyfail1", "notifyfail2"}
+  Answers = {"accepted", "inmempool", "rejected", "notifyfail1", "notifyfail2"}
   Acts = {"Receive", "Mine", "Lock", "Lease", "Send", "SendExplicit", "DryRun", "Restart"}
   LockCoins = {1, 2, 3, 5, 7, 8}
   MaxHist = 28
